@@ -270,15 +270,21 @@ func init() {
 						isParamRound = true
 					}
 				}
+				// the polka may have been found at the call site of a helper carved out of us.fn: the
+				// remaining conditions are then asked at the store itself, over the chain helper → call site
+				tgt := us.at
+				if us.fn != fs.Fn && transparentRoot(fs.Fn) == us.fn {
+					tgt = fs.Store
+				}
 				if isParamRound {
 					// step path: round is the entered round; unlock on nil polka or on a polka for a block that is not the lock
-					c.guards(us.fn, us.at, key, 1, guardCmp("round is not in the past", q(R), ">=", `.*\.Round`))
-					c.anyGuards(us.fn, us.at, key, "polka is nil, or for a block that is neither the lock nor (valid) proposal", 0,
+					c.guards(us.fn, tgt, key, 1, guardCmp("round is not in the past", q(R), ">=", `.*\.Round`))
+					c.anyGuards(us.fn, tgt, key, "polka is nil, or for a block that is neither the lock nor (valid) proposal", 0,
 						[]Guard{guardCmp("nilpolka", `len\(`+pol+`#0\.Hash\)`, "==", "0")},
 						[]Guard{guardRe("notlock", `^false\(.*\.LockedBlock\.HashesTo\(`+pol+`#0\.Hash\)\)$`), guardRe("notprop", `^false\(.*\.ProposalBlock\.HashesTo\(`+pol+`#0\.Hash\)\)$`)})
 				} else {
 					// vote path: polka from an arbitrary round R of a received vote
-					c.guards(us.fn, us.at, key, 0,
+					c.guards(us.fn, tgt, key, 0,
 						guardCmp("polka round is after the lock round", `.*\.LockedRound`, "<", q(R)),
 						guardCmp("polka round is not in the future", q(R), "<=", `.*\.Round`),
 						guardRe("polka is not for the locked block", `^false\(.*\.LockedBlock\.HashesTo\(`+pol+`#0\.Hash\)\)$`),
